@@ -243,6 +243,10 @@ def _array_cases(spec, rng_small, tier):
             yield {"contract": "C08.transpose_dense", "a": spec, "perm": list(p)}
         yield {"contract": "C08.transpose_dense", "a": spec, "perm": None}
     yield {"contract": "C08.conj_dagger_dense", "a": spec}
+    if "complex" in spec.get("dtype", "float64") and spec.get("sectors") and (spec["sectors"] == "all" or len(spec["sectors"]) > 1):
+        # blocks of mixed element type, as made by  real_array + complex_array : first stored block real, others complex
+        yield {"contract": "C08.conj_dagger_dense", "a": dict(spec, mixed_block_dtypes=True)}
+        yield {"contract": "C08.transpose_dense", "a": dict(spec, mixed_block_dtypes=True), "perm": list(range(nd))[::-1]} if nd >= 1 else {"contract": "C08.conj_dagger_dense", "a": spec}
     yield {"contract": "C08.squeeze", "a": spec, "axis": None}
     unit = [i for i, ix in enumerate(spec["indices"]) if sum(d for _, d in ix["cm"]) == 1]
     for i in range(nd):
